@@ -301,3 +301,19 @@ Proof.
 Qed.
 
 End Tan.
+
+(* ---- fsync and error rules of tan's save path ---- *)
+Lemma tan_batch_sync_any : forall needs, In true needs -> tan_batch_sync needs = true.
+Proof.
+  intros needs H. unfold tan_batch_sync.
+  change c10_tanmux_batch_sync_accumulates with true. cbv iota.
+  apply existsb_exists. exists true. split; auto.
+Qed.
+
+Lemma tan_seq_sync_each : forall needs, tan_seq_sync needs = needs.
+Proof. intros. unfold tan_seq_sync. change c10_tan_seq_sync_each_update with true. reflexivity. Qed.
+
+Lemma tan_rollover_error_fails : forall w, tan_write_result true w = false.
+Proof.
+  intros w. unfold tan_write_result. change c10_tan_rollover_error_propagates with true. reflexivity.
+Qed.
